@@ -482,10 +482,18 @@ def check_brain(ctx):
     root.mkdir(parents=True)
     for k in range(30 * ctx.scale):
         numel = int(rng.integers(1, 7))
-        kind = rng.choice(["fmc", "hmc", "perm"])
+        kind = rng.choice(["fmc", "hmc", "perm", "tx_subaperture", "rx_subaperture", "subset"])
         allp = [(i, j) for i in range(numel) for j in range(numel) if kind != "hmc" or i <= j]
         if kind == "perm":
             allp = [allp[i] for i in rng.permutation(len(allp))]
+        elif kind in ("tx_subaperture", "rx_subaperture") and numel >= 2:
+            # a few (low-numbered or arbitrary) elements fire / listen, all the others do the opposite
+            sub = sorted(int(v) for v in rng.permutation(numel)[: int(rng.integers(1, numel))]) if rng.random() < 0.5 else list(range(int(rng.integers(1, numel))))
+            allp = [(i, j) for i, j in allp if (i if kind == "tx_subaperture" else j) in sub]
+            if rng.random() < 0.5:
+                allp = sorted(allp, key=lambda p_: (p_[1], p_[0]))       # receiver-major storage
+        elif kind == "subset":
+            allp = [allp[i] for i in rng.permutation(len(allp))[: int(rng.integers(1, len(allp) + 1))]]
         ns = int(rng.integers(2, 12))
         tt = rng.normal(size=(len(allp), ns))
         t0, dt = float(rng.uniform(-1e-6, 5e-6)), float(rng.choice([1e-8, 4e-8, 2.0**-24]))
